@@ -281,7 +281,8 @@ impl C13 {
                         let _ = std::fs::create_dir_all(dir.join("io"));
                         dir.join("io").join("g.qgraph")
                     }
-                    Fault::OutEnospc => std::path::PathBuf::from("/dev/full"),
+                    // a symbolic link to /dev/full, never the device node itself (see cli::enospc_target)
+                    Fault::OutEnospc => crate::cli::enospc_target(&scratch, "full.qgraph"),
                     Fault::OutNoDir => dir.join("missing").join("g.qgraph"),
                     Fault::OutIsDir => dir.clone(),
                 };
@@ -382,11 +383,11 @@ impl C13 {
                 ctx.out.fault(fname);
                 ctx.out.ev_str(&format!("{:?}", wrote.is_ok()));
                 match (&wrote, fault) {
-                    (Ok(()), Fault::OutEnospc) => {
+                    (Ok(()), Fault::OutEnospc) if crate::cli::still_link_to_full(&path) => {
                         ctx.out.violations.push(
                             Violation::new(
                                 "write_reported_success_but_not_durable",
-                                "write_graph(g, \"/dev/full\") returned Ok(()) although every write(2) fails with ENOSPC: the error of the final flush is discarded".to_string(),
+                                "write_graph(g, <link to /dev/full>) returned Ok(()) although every write(2) to the target fails with ENOSPC".to_string(),
                             )
                             .with("fault", fname),
                         );
